@@ -49,6 +49,8 @@ def main():
     for f in files:
         d = json.load(open(f))
         for e in d["findings"]:
+            if "func" in e["key"]:          # audits recorded the function; findings are keyed by module (see run.py)
+                e["key"]["file"] = e["key"].pop("func").split(":")[0]
             kid = e["property"] + json.dumps(e["key"], sort_keys=True)
             a = agg.setdefault(kid, {"property": e["property"], "key": e["key"], "n": 0, "idx": [], "detail": e["detail"],
                                      "serial": d.get("mode", "serial") == "serial"})
@@ -75,7 +77,7 @@ def main():
         if prop == "C06":
             if not strict:
                 continue            # integer-coded class: judged by the baseline table, not by key
-            what = (f"{key['optimizer']}: optimize() on a valid continuous task fails with {key['exc']} in {key['func']} "
+            what = (f"{key['optimizer']}: optimize() on a valid continuous task fails with {key['exc']} raised in {key['file']} "
                     f"(input-dependent; e.g. {a['detail'][:110]})")
         elif prop in WHAT:
             what = WHAT[prop].format(**key) + f"; e.g. {a['detail'][:120]}"
